@@ -6,8 +6,8 @@ use rspack_sources::{BoxSource, Source, SourceMap};
 use serde::{Deserialize, Serialize};
 
 use crate::build::build;
-use crate::edit::all_edits;
-use crate::gen::{idx, tree, GenCfg};
+use crate::edit::{all_edits, pick_edit};
+use crate::gen::{tree, GenCfg};
 use crate::observe::{guard, opts, stream};
 use crate::props::c05::hash_of;
 use crate::runner::*;
@@ -149,13 +149,9 @@ impl Prop for C14 {
       let (ys, kind): (Spec, &'static str) = match case.edit {
         None => (xs.clone(), "same Spec"),
         Some(sel) => {
-          let mut e = all_edits(xs, true);
-          if e.is_empty() {
-            (xs.clone(), "same Spec")
-          } else {
-            let k = idx(sel, e.len());
-            let ed = e.swap_remove(k);
-            (ed.result, ed.kind)
+          match pick_edit(all_edits(xs, true), sel) {
+            None => (xs.clone(), "same Spec"),
+            Some(ed) => (ed.result, ed.kind),
           }
         }
       };
